@@ -82,7 +82,17 @@ func RandomDag(r *mon.Rng, o DagOpts) *cell.Cell {
 		maxRefs = 4
 	}
 	var pool []*cell.Cell
-	depthOf := func(c *cell.Cell) int { return c.Depth() }
+	// the depth at every level counts: a pruned branch stores one depth per level, and the lower
+	// levels of its ancestors inherit them (TON and tongo limit every one of them to 1024)
+	depthOf := func(c *cell.Cell) int {
+		d := 0
+		for l := 0; l <= 3; l++ {
+			if x := c.DepthAt(l); x > d {
+				d = x
+			}
+		}
+		return d
+	}
 	for i := 0; i < o.Nodes; i++ {
 		var c *cell.Cell
 		kind := r.Intn(20)
